@@ -497,11 +497,12 @@ type ConcCase struct {
 	Copies     int     `json:"copies"`     // every job is run by this many goroutines at once
 	GoMaxProcs int     `json:"gomaxprocs"` // 1, 2, 4, 16
 	Rounds     int     `json:"rounds"`
+	SharedOpts bool    `json:"shared_opts,omitempty"` // the copies of a job pass prefixes of ONE option slice (sources stay independent)
 }
 
 var propC15 = register(&Property{
 	ID: "C15",
-	Rule: "k = jobs x copies concurrent Layout calls (2..64 goroutines, released by a common barrier, several rounds, GOMAXPROCS from {1,2,4,16}) over random inputs and option sets, no monitor; harness built with -race: " +
+	Rule: "k = jobs x copies concurrent Layout calls (2..64 goroutines, released by a common barrier, several rounds, GOMAXPROCS from {1,2,4,16}) over random inputs and option sets (in 1/4 of the cases the copies of a job share one option slice with spare capacity), no monitor; harness built with -race: " +
 		"oracle = no race report and every concurrent result DeepEquals the result of the same job run alone beforehand; non-trivial = >=8 goroutines, >=4 distinct jobs, GOMAXPROCS >= 4",
 	New:   func() any { return &ConcCase{} },
 	Gen:   func(rt *rapid.T, s *Stats) any { return genC15(rt, s) },
@@ -526,6 +527,9 @@ func genC15(rt *rapid.T, st *Stats) *ConcCase {
 	}
 	cc.GoMaxProcs = []int{1, 2, 4, 16}[pick(rt, "gomaxprocs", 4)]
 	cc.Rounds = rapid.IntRange(1, 4).Draw(rt, "rounds")
+	// option values are plain data a caller may share between goroutines: in a quarter of the cases all copies of a job
+	// pass (prefixes of) one and the same option slice, which has spare capacity (seeded/r4-m15: Layout appended to it)
+	cc.SharedOpts = chance(rt, "shared_opts", 1, 4)
 	if chance(rt, "wide_job", 1, 12) {
 		// one job with layers of 33..40 nodes: buffers that are only shared / pooled above a size threshold
 		// (seeded/r2-m15 pools crossing-counter trees for layers wider than 32) are reachable only there
@@ -563,19 +567,39 @@ func checkC15(cc *ConcCase) *Outcome {
 	}
 	k := len(cc.Jobs) * cc.Copies
 	o.class(fmt.Sprintf("gomaxprocs=%d", cc.GoMaxProcs))
+	o.classIf(cc.SharedOpts && cc.Copies >= 2, "copies_share_one_option_slice")
 	for round := 0; round < cc.Rounds; round++ {
 		start := make(chan struct{})
 		var wg sync.WaitGroup
 		errs := make([]error, k)
+		// shared option slices: one per job, length n+1 (the last entry restates a default: WithOrdering(WMedian)), capacity
+		// n+4; copy number i passes the first n + i%2 entries, so the calls see different lengths of one backing array
+		var shared [][]autog.Option
+		if cc.SharedOpts {
+			for _, c := range cc.Jobs {
+				base := c.Options(c.SizeMap())
+				buf := make([]autog.Option, len(base)+1, len(base)+4)
+				copy(buf, base)
+				buf[len(base)] = autog.WithOrdering(autog.OrderingWMedian)
+				shared = append(shared, buf)
+			}
+		}
 		for g := 0; g < k; g++ {
 			g := g
 			c := cc.Jobs[g%len(cc.Jobs)]
 			src, sizes := c.EdgeSlice(), c.SizeMap() // independent sources
+			var opts []autog.Option
+			if cc.SharedOpts {
+				buf := shared[g%len(cc.Jobs)]
+				opts = buf[:len(buf)-1+(g/len(cc.Jobs))%2]
+			} else {
+				opts = c.Options(sizes)
+			}
 			wg.Add(1)
 			go func() {
 				defer wg.Done()
 				<-start
-				l, perr := c.RunWith(src, sizes)
+				l, perr := c.RunOpts(src, opts)
 				if perr != nil {
 					errs[g] = fmt.Errorf("goroutine %d (job %d) panicked: %v", g, g%len(cc.Jobs), perr)
 					return
